@@ -15,6 +15,7 @@ import concurrent.futures.thread as cf_thread
 import concurrent.futures.process as cf_process
 import pickle
 import sys
+import threading
 from concurrent.futures.process import BrokenProcessPool
 
 from ..engine import HarnessError
@@ -33,8 +34,15 @@ _installed = False
 class Sim:
 	"""Scheduler shared by all pools of one run."""
 
-	def __init__(self, ctx, machine_size=4, policy='uniform', script=None, starve=None):
+	def __init__(self, ctx, machine_size=4, policy='uniform', script=None, starve=None, interleave=False, quantum=200):
 		self.ctx = ctx
+		# interleave: thread-flavour task bodies run in real threads, one at a time, pre-empted at Python line
+		# events of gambit.* frames; the scheduler decides who runs next and for how many line events
+		self.interleave = interleave
+		self.quantum = quantum
+		self.back = threading.Semaphore(0)
+		self.aborting = False
+		self.preemptions = 0
 		self.machine_size = machine_size
 		self.policy = policy
 		self.script = list(script) if script is not None else None
@@ -93,8 +101,27 @@ class Sim:
 			task = pool[self.ctx.ch._draw(len(pool), 'complete')] if len(pool) > 1 else pool[0]
 		else:
 			task = cands[self.ctx.ch._draw(len(cands), 'complete')]
+		if self.interleave and self.script is None and task.pool.flavour == 'threads' and task.tid not in self.task_faults:
+			q = 1 + self.ctx.ch._draw(self.quantum, 'quantum')
+			if not task.pool._advance(task, q):
+				self.preemptions += 1
+				return True     # progress, but nobody finished: the caller's condition is re-evaluated
 		task.pool._complete(task, len(cands))
 		return True
+
+	def finish(self):
+		"""Let every parked task thread run to its end (untraced) and join it. Called when the simulation ends."""
+		self.aborting = True
+		for p in self.pools:
+			for t in list(p.running) + list(p.queue):
+				th = getattr(t, 'thread', None)
+				if th is not None and th.is_alive():
+					t.budget = -1
+					t.go.release()
+					th.join(30)
+		if self.preemptions:
+			self.ctx.stats['thread_preemptions'] += self.preemptions
+			self.ctx.probe('task_bodies_interleaved')
 
 	def step_until(self, cond, what):
 		while not cond():
@@ -103,7 +130,38 @@ class Sim:
 
 
 class _Task:
-	__slots__ = ('tid', 'pool', 'future', 'fn', 'args', 'kwargs', 'payload')
+	__slots__ = ('tid', 'pool', 'future', 'fn', 'args', 'kwargs', 'payload', 'thread', 'go', 'budget', 'state', 'outcome')
+
+
+def _is_gambit_frame(frame):
+	mod = frame.f_globals.get('__name__', '')
+	return mod == 'gambit' or mod.startswith('gambit.')
+
+
+def _task_thread(sim, task):
+	task.go.acquire()
+
+	def local(frame, event, arg):
+		if event == 'line' and task.budget >= 0:
+			task.budget -= 1
+			if task.budget <= 0 and not sim.aborting:
+				task.state = 'parked'
+				sim.back.release()
+				task.go.acquire()
+		return local
+
+	def glob(frame, event, arg):
+		return local if _is_gambit_frame(frame) else None
+	sys.settrace(glob)
+	try:
+		try:
+			task.outcome = ('ok', task.fn(*task.args, **task.kwargs))
+		except BaseException as e:  # noqa
+			task.outcome = ('exc', e)
+	finally:
+		sys.settrace(None)
+		task.state = 'done'
+		sim.back.release()
 
 
 class SimFuture(cf.Future):
@@ -163,6 +221,9 @@ class SimExecutor(cf.Executor):
 		sim.next_task_id += 1
 		t.pool = self
 		t.future = SimFuture(sim, t.tid)
+		t.thread = None
+		t.state = 'new'
+		t.outcome = None
 		if self.flavour == 'processes':
 			# one pickle round trip, as the call queue of the real pool does
 			t.payload = pickle.dumps((fn, args, kwargs))
@@ -173,6 +234,20 @@ class SimExecutor(cf.Executor):
 		self.queue.append(t)
 		sim.ctx.log('submit', task=t.tid)
 		return t.future
+
+	def _advance(self, task, quantum):
+		"""Interleaved thread flavour: let the task's thread run for `quantum` line events. True if it finished."""
+		if task.thread is None:
+			task.go = threading.Semaphore(0)
+			task.thread = threading.Thread(target=_task_thread, args=(self.sim, task), daemon=True)
+			task.thread.start()
+		task.budget = quantum
+		task.go.release()
+		self.sim.back.acquire()
+		if task.state == 'done':
+			task.thread.join()
+			return True
+		return False
 
 	def _complete(self, task, n_running):
 		sim = self.sim
@@ -201,7 +276,12 @@ class SimExecutor(cf.Executor):
 				fn, args, kwargs = pickle.loads(task.payload)
 			else:
 				fn, args, kwargs = task.fn, task.args, task.kwargs
-			result = fn(*args, **kwargs)
+			if task.outcome is not None:      # body already ran in its own (interleaved) thread
+				if task.outcome[0] == 'exc':
+					raise task.outcome[1]
+				result = task.outcome[1]
+			else:
+				result = fn(*args, **kwargs)
 			if self.flavour == 'processes':
 				if fault == 'unpicklable':
 					ctx.fault('result_unpicklable', task=task.tid)
@@ -368,6 +448,8 @@ def activate(sim):
 
 def deactivate():
 	global _active
+	if _active is not None:
+		_active.finish()
 	_active = None
 
 
